@@ -117,6 +117,10 @@ def run(res, tier, seed):
     res.add_lemma(a, "NoError", "floor(centre) lies inside the source for all sizes < 2^16 and all valid quarter-pixel crops")
     if a["result"] != "NoError":
         raise vlib.ToolError("lemma GeomLemmas!NearestInside: %s" % a["result"])
+    t = vlib.run_tlapm("NearestProof")
+    res.add_lemma(t, "Proved", "TLAPS: floor(centre) is an index inside the source for ALL natural sizes and every rational grid (crop inside)")
+    if t["result"] != "Proved":
+        raise vlib.ToolError("TLAPS proof NearestProof: %s" % t["result"])
     cases = gen(tier, rng)
     bad, recs = rz.run_resize_trace(res, "c11", cases)
     report(res, "C11", bad)
